@@ -10,6 +10,7 @@ src: str.c, obj.c
 enforce: spif_str_append_char
 backend: sat,z3
 timeout: 200
+flags: --slice-formula
 */
 /*@unit
 name: str_append_char.nonempty
@@ -18,6 +19,7 @@ src: str.c, obj.c
 enforce: spif_str_append_char
 backend: sat,z3
 timeout: 200
+flags: --slice-formula
 */
 /*@unit
 name: str_append_from_ptr.empty
@@ -26,6 +28,7 @@ src: str.c, obj.c
 enforce: spif_str_append_from_ptr
 backend: sat,z3
 timeout: 200
+flags: --slice-formula
 */
 /*@unit
 name: str_append_from_ptr.nonempty
@@ -34,6 +37,7 @@ src: str.c, obj.c
 enforce: spif_str_append_from_ptr
 backend: sat,z3
 timeout: 200
+flags: --slice-formula
 */
 /*@unit
 name: str_append.empty
@@ -42,6 +46,7 @@ src: str.c, obj.c
 enforce: spif_str_append
 backend: sat,z3
 timeout: 200
+flags: --slice-formula
 */
 /*@unit
 name: str_append.nonempty
@@ -50,6 +55,7 @@ src: str.c, obj.c
 enforce: spif_str_append
 backend: sat,z3
 timeout: 200
+flags: --slice-formula
 */
 /*@unit
 name: ustr_append_char.empty
@@ -58,6 +64,7 @@ src: ustr.c, obj.c
 enforce: spif_ustr_append_char
 backend: sat,z3
 timeout: 200
+flags: --slice-formula
 */
 /*@unit
 name: ustr_append_char.nonempty
@@ -66,6 +73,7 @@ src: ustr.c, obj.c
 enforce: spif_ustr_append_char
 backend: sat,z3
 timeout: 200
+flags: --slice-formula
 */
 /*@unit
 name: ustr_append_from_ptr.empty
@@ -74,6 +82,7 @@ src: ustr.c, obj.c
 enforce: spif_ustr_append_from_ptr
 backend: sat,z3
 timeout: 200
+flags: --slice-formula
 */
 /*@unit
 name: ustr_append_from_ptr.nonempty
@@ -82,6 +91,7 @@ src: ustr.c, obj.c
 enforce: spif_ustr_append_from_ptr
 backend: sat,z3
 timeout: 200
+flags: --slice-formula
 */
 /*@unit
 name: ustr_append.empty
@@ -90,6 +100,7 @@ src: ustr.c, obj.c
 enforce: spif_ustr_append
 backend: sat,z3
 timeout: 200
+flags: --slice-formula
 */
 /*@unit
 name: ustr_append.nonempty
@@ -98,6 +109,7 @@ src: ustr.c, obj.c
 enforce: spif_ustr_append
 backend: sat,z3
 timeout: 200
+flags: --slice-formula
 */
 #include "str.h"
 
